@@ -29,8 +29,8 @@ def cases(tier, seed):
                [('general', r, b) for r, b in files.LAYOUTS_3D['general']]
         for fam, rate, bs in lays:
             shape = files.small_shape_for(bs, rng, blocks=(2, 3), cap=700_000 if tier == 'quick' else 3_000_000)
-            d = files.wspec_desc(rng, shape, rate, bs, narr=rng.choice([0, 1, 2, 3, 5]), il=[rng.choice([1, 10, -7, -100]), rng.choice([1, 2, -1, -3])],
-                                 xl=[rng.choice([0, 100, -20]), rng.choice([1, 3, -2])], version=rng.choice([[0, 2, 9], [0, 2, 9], [0, 2, 1], [0, 1, 9], [0, 2, 2]]))
+            d = files.wspec_desc(rng, shape, rate, bs, narr=rng.choice([0, 1, 2, 3, 5]), il=[rng.choice([1, 10, -7, -100, 250000, 2 ** 24]), rng.choice([1, 2, -1, -3])],
+                                 xl=[rng.choice([0, 100, -20, 1000000]), rng.choice([1, 3, -2])], version=rng.choice([[0, 2, 9], [0, 2, 9], [0, 2, 1], [0, 1, 9], [0, 2, 2]]))
             out.append({'id': 'w:%s:%s:%s:%d' % (fam, rate, 'x'.join(map(str, bs)), rep), 'file': d, 'nreq': 6 if tier == 'quick' else 12, 'cost': 3})
         for rate, bs in [(4, (4, 4, -1)), (2, (64, 64, 4)), (8, (8, 8, -1)), (2, (4, 4, -1))]:
             rbs = conv.resolve_bs(rate, bs)
@@ -246,6 +246,28 @@ def run_case(case, ctx):
         except Exception as e:  # noqa
             bad.append({'sig': 'crop:invalid-request-raises-%s' % type(e).__name__, 'detail': '%s: %r' % (call, e)})
     strata.update(['invalid:none', 'invalid:absent'])
+    # coordinate requests whose stop lies just beyond the exclusive end of the axis (one more line / sample than exists), or between two lines
+    if nI >= 2 and nX >= 2:
+        ist, xst = int(il[1] - il[0]), int(xl[1] - xl[0])
+        past = [((int(il[0]), int(il[-1]) + 2 * ist), None, None, 'il-stop-one-line-past-end'), (None, (int(xl[0]), int(xl[-1]) + 2 * xst), None, 'xl-stop-one-line-past-end'),
+                ((int(il[0]), int(il[-1]) + ist + (1 if ist > 0 else -1)), None, None, 'il-stop-one-number-past-end')]
+        for ic, xc, zc, cls in past:
+            if cls.endswith('number-past-end') and abs(ist) == 1:
+                continue
+            ninvalid += 1
+            if os.path.exists(out):
+                os.remove(out)
+            try:
+                with env.quiet():
+                    with SgzCropper(path) as c:
+                        c.write_cropped_file_by_coords(out, ic, xc, zc)
+                bad.append({'sig': 'crop:invalid-request-accepted:stop-coordinate-past-end', 'detail': '%s: request %s on axes il=%s.. xl=%s.. wrote a file' % (cls, (ic, xc, zc), il[:2], xl[:2])})
+            except IndexError:
+                if os.path.exists(out):
+                    bad.append({'sig': 'crop:refusal-leaves-output-file', 'detail': cls})
+            except Exception as e:  # noqa
+                bad.append({'sig': 'crop:invalid-request-raises-%s' % type(e).__name__, 'detail': '%s: %r' % (cls, e)})
+        strata.add('invalid:stop-past-end:%s' % ('large-numbers' if max(abs(int(il[0])), abs(int(xl[0]))) >= 100000 else 'small-numbers'))
     return {'violations': bad, 'counters': {'crops_compared': ncrops, 'invalid_requests': ninvalid}, 'strata': sorted(strata),
             'key': case['id'], 'nontrivial': ncrops + ninvalid > 0}
 
@@ -253,7 +275,7 @@ def run_case(case, ctx):
 def finalize(tier, cases, results, counters, strata):
     reasons = []
     need = ['layout:default', 'layout:zslice', 'layout:general', 'form:index', 'form:coords', 'invalid:empty', 'invalid:inverted', 'invalid:outside-high',
-            'invalid:outside-low', 'invalid:none', 'invalid:absent', 'refuse-2d', 'refuse-irregular', 'cropper-reused', 'cropper-read-before-crop'] + ['req-%s:%s' % (a, k) for a in 'ixz' for k in ('aligned', 'unaligned', 'tail', 'full', 'none', 'one')]
+            'invalid:outside-low', 'invalid:none', 'invalid:absent', 'refuse-2d', 'refuse-irregular', 'cropper-reused', 'cropper-read-before-crop', 'invalid:stop-past-end:large-numbers', 'invalid:stop-past-end:small-numbers'] + ['req-%s:%s' % (a, k) for a in 'ixz' for k in ('aligned', 'unaligned', 'tail', 'full', 'none', 'one')]
     for s in need:
         if s not in strata:
             reasons.append('required stratum not hit: ' + s)
